@@ -558,5 +558,10 @@ func cellPrefix(t types.Type) string    { return "C!" + typeName(t) }
 const bytesArr = "BC" // Int -> String : contents of []byte objects
 
 func (c *Ctx) bytesContent(st *State, ref Term) Term {
+	c.heapInit(bytesArr, arrSort(SInt, SStr))
+	c.Reg.Axiom("bcnil", "(= (select "+sym("H0!"+bytesArr)+" 0) \"\")")
+	if isLit(ref, "0") {
+		return StrT("")
+	}
 	return c.readComp(st, bytesArr, SStr, ref)
 }
